@@ -94,6 +94,20 @@ def check_droplet_tracker(ctx: Ctx):
         okp = e_arg is not None and U(e_arg) == res and t_arg is not None and U(t_arg) == h.params[2] and app.params[2] == "time" and hv.post_dominates(a, st)
     ctx.decide(okp, "PIPE", f"{site}:append", (h, ap[0]) if ap else h, f"the located emulsion is appended with time={h.params[2]} on every path",
                "the located emulsion is not appended to the time course with the solver's time bound to the `time` parameter")
+    # every frame is analysed: no path through handle() reaches the append without the locate_droplets call, and the
+    # recorded emulsion has no other source (a remembered result of an earlier frame, an empty placeholder, …)
+    from ..astutil import count_on_normal_paths
+
+    n_paths = count_on_normal_paths(hv, [c])
+    other_defs = []
+    if res and ap:
+        for d_ in hv.defs_reaching(res, ap[0]):
+            if d_.stmt is not None and d_.stmt is not st:
+                other_defs.append(d_.stmt)
+    ctx.decide(n_paths == {1} and not other_defs, "PIPE", f"{site}:every-frame", (h, other_defs[0]) if other_defs else (h, c),
+               "every call of handle() analyses the field it was given with locate_droplets",
+               f"some path records an emulsion that does not come from analysing this frame (`{U(other_defs[0])[:60] if other_defs else 'locate_droplets is skipped'}`): the tracked course differs "
+               "from analysing the stored fields afterwards (solvers update the field in place, so a remembered array compares equal to itself and every later frame repeats an old result)")
     # self.data is the EmulsionTimeCourse given or a new one
     d = stored.get("data")
     okd = d is not None and U(d.value) in ("EmulsionTimeCourse()", "emulsion_timecourse")
@@ -250,6 +264,12 @@ def check_length_tracker(ctx: Ctx):
     ctx.decide(ok, "TRYGUARD", site, (h, where),
                "any exception of the analysis is caught (except Exception or wider), the recorded value becomes NaN, nothing is re-raised",
                f"{detail}: an analysis failure with another exception type (e.g. ZeroDivisionError when no droplet is found, IndexError on symmetric grids) escapes the tracker and aborts the simulation")
+    from ..astutil import count_on_normal_paths as _cnp
+
+    np_ = _cnp(hv, [c])
+    ctx.decide(np_ == {1}, "PIPE", site + ":every-frame", (h, c), "every call of handle() runs the analysis on the field it was given",
+               "some path through handle() records a value without calling get_length_scale on the frame (a pre-check that declares the frame homogeneous/unchanged): the record then "
+               "differs from what the analysis returns for that frame (e.g. NaN for a weakly modulated field whose normalised structure factor has a clear peak)")
     # SAMEVALUE: the recorded value is the analysis result itself — nothing between the call and the append changes what the
     # call returns or raises (a context that turns floating-point warnings into errors makes `inf` results NaN records)
     withs = []
@@ -323,7 +343,7 @@ def check(ctx: Ctx):
     io.check_timecourse_time(ctx)
     io.check_file_modes(ctx)
     ctx.expect("FORWARD", 15)
-    ctx.expect("PIPE", 5)
+    ctx.expect("PIPE", 7)
     ctx.expect("NONETEST", 1)
     ctx.expect("TRYGUARD", 1)
     ctx.expect("SAMEVALUE", 1)
